@@ -200,8 +200,16 @@ def _lookalike_ok(tspec):
     if tspec["k"] == "struct":
         return all(ft["k"] in ("scalar", "string") or (ft["k"] == "array" and ft["item"]["k"] == "scalar") for _, ft in tspec["fields"])
     if tspec["k"] == "array":
+        if tspec["item"]["k"] == "scalar" and len(tspec["shape"]) >= 2:
+            return True  # twin class: same item, shape and NAME, another axis order
         return tspec["item"]["k"] == "scalar" and len(tspec["shape"]) == 1 and tspec["shape"][0] is None
     return False
+
+
+def _twin_order(order):
+    o = list(order)
+    r = list(reversed(o))
+    return r if r != o else o[1:] + o[:1]
 
 
 def _make_lookalike(tnode, val, buf):
@@ -213,12 +221,19 @@ def _make_lookalike(tnode, val, buf):
         return L(assign.plain_arg(tnode, val), _buffer=buf)
     item = tnode.kids[0].cls
     n = len(val["flat"])
+    if len(tnode.spec["shape"]) >= 2:
+        import numpy as np
+
+        shp = tuple(slice(d, o) for d, o in zip(tnode.spec["shape"], _twin_order(tnode.spec["order"])))
+        return item[shp](np.array(val["flat"], dtype=item._dtype).reshape(val["shape"]), _buffer=buf)
     return item[max(n, 1)](val["flat"] if n else [0], _buffer=buf) if n else item[1]([0], _buffer=buf)
 
 
 def _lookalike_node(tnode, look):
     if tnode.spec["k"] == "struct":
         return mat.Node(tnode.spec, type(look), tnode.kids)
+    if len(tnode.spec["shape"]) >= 2:
+        return mat.Node(dict(tnode.spec, order=_twin_order(tnode.spec["order"]), name=None), type(look), tnode.kids)
     sp = dict(tnode.spec, shape=[int(look._shape[0])], name=None)
     return mat.Node(sp, type(look), tnode.kids)
 
